@@ -53,6 +53,7 @@ pub fn enc_index(e: &'static encoding_rs::Encoding) -> usize {
 // ---- per-thread output buffer: cases write their log here, the driver prints or collects it
 thread_local! { pub static OUT: std::cell::RefCell<String> = std::cell::RefCell::new(String::new()); }
 pub fn emit(s: String) { OUT.with(|o| { let mut o = o.borrow_mut(); o.push_str(&s); o.push('\n'); }); }
+pub fn push_out(s: &str) { OUT.with(|o| o.borrow_mut().push_str(s)); }
 pub fn take_out() -> String { OUT.with(|o| std::mem::take(&mut *o.borrow_mut())) }
 #[macro_export]
 macro_rules! outln { ($($arg:tt)*) => { $crate::util::emit(format!($($arg)*)) }; }
